@@ -310,10 +310,41 @@ def fresh_returning(mods, base=('malloc', 'calloc', 'realloc', 'reallocarray', '
                 if ins.op == 'ret' and ins.ops:
                     outs |= origin(fn, ins.ops[0], set())
             outs.discard('null')
-            if outs and all(o in fresh or o == n for o in outs) and any(o in fresh for o in outs):
+            if outs and all(o in fresh or o == n for o in outs) and any(o in fresh for o in outs) and not _returned_value_kept(fn):
                 fresh.add(n)
                 changed = True
     return fresh - set(base)
+
+
+def _returned_value_kept(fn):
+    """does the function also store (an alias of) the value it returns into memory other than its own locals?
+    Then the object already has an owner (the container it was hung into) and the caller receives a borrowed pointer."""
+    def regs_of(v, seen):
+        out = set()
+        if v.kind != 'reg' or v.name in seen:
+            return out
+        seen.add(v.name)
+        out.add(v.name)
+        d = fn.defs.get(v.name)
+        if d is not None and d.op in ('bitcast', 'phi', 'select'):
+            for x in (d.ops[1:] if d.op == 'select' else d.ops):
+                out |= regs_of(x, seen)
+        return out
+    rets = set()
+    for ins in fn.instrs():
+        if ins.op == 'ret' and ins.ops:
+            rets |= regs_of(ins.ops[0], set())
+    # aliases through bitcasts of the same register
+    alias = set(rets)
+    for ins in fn.instrs():
+        if ins.op == 'bitcast' and ins.ops[0].kind == 'reg' and ins.ops[0].name in rets and ins.res:
+            alias.add(ins.res)
+    for ins in fn.instrs():
+        if ins.op == 'store' and ins.ops[0].kind == 'reg' and ins.ops[0].name in alias:
+            k = store_key(fn, ins)
+            if not k.startswith('local:'):
+                return True
+    return False
 
 
 def immutable_fields(mods, candidates=('type',), allowed_writers=(('type', 'cfg_addopt'),)):
